@@ -308,6 +308,40 @@ def check_local_duplicates(ctx, cfg, rule="C04.D"):
     return n
 
 
+def check_suppressed_elements(ctx, cfg, rule="C04.S"):
+    """A heap array re-typed in place from elements `T` to `ManuallyDrop<T>` / `MaybeUninit<T>` (Box::into_raw -> cast -> Box::from_raw) takes the
+    elements' destructors out of the box's hands: from there on they are dropped only if the code moves each one out. If caller code (a closure,
+    a Clone, a source iterator) can run after the re-typing - in this body or in closures it drives - an unwinding call leaves the elements not
+    yet moved out with no owner: dropped zero times. (A tracked owner with a cursor - ArrayConsumer, the by-value iterator - is the form that
+    releases the rest; the reverse re-typing MaybeUninit<T> -> T, the end of an in-place fill, suppresses nothing.) Zero instances on the tree."""
+    from ..tys import is_ga, adt_args, tstr
+    from ..typestate import has_generic
+    db = ctx.db(cfg)
+    cl = Classifier(db)
+    n = 0
+    for b in db.bodies:
+        if b["kind"] not in ("Fn", "AssocFn") or not any(t["term"]["k"] == "call" and t["term"]["f"].get("k") == "fn" and t["term"]["f"]["def"].endswith("::from_raw") for t in b["mir"]["blocks"]):
+            continue
+        a = ctx.analysis(cfg, b["key"])
+        irs = [c for c in a.calls if c.fn.endswith("::into_raw") and c.targs and is_ga(c.targs[0])]
+        for f in [c for c in a.calls if c.fn.endswith("::from_raw") and c.targs and is_ga(c.targs[0])]:
+            el = adt_args(f.targs[0])[0]
+            if not (el.get("k") == "adt" and el["def"] in ("core::mem::ManuallyDrop", "core::mem::MaybeUninit")):
+                continue
+            inner = adt_args(el)[0]
+            src = [c for c in irs if tstr(adt_args(c.targs[0])[0]) == tstr(inner) and c.ret is not None and f.args and c.ret[0] == "P" and f.args[0][0] == "P" and c.ret[1] == f.args[0][1]]
+            if not src or not has_generic(inner):
+                continue
+            n += 1
+            nodrop = any(x[0] == "b" and x[1][0] == "needs_drop" and x[2] is False and x[1][1] == tstr(inner) for x in f.facts)
+            later = sorted({c.fn for c in a.calls if c is not f and cl.classify(c, b) == "foreign" and (c.bb == f.bb or a.reaches(f.bb, c.bb)) and not a.blocks[c.bb]["cleanup"]})
+            ok = nodrop or not later
+            ctx.ob(rule, "%s#suppress#%d" % (b["key"], n), ok, "Box<GenericArray<%s, N>> re-typed in place as elements of %s (destructors suppressed); calls that can run caller code afterwards: %s; reached only under needs_drop::<%s>() == false: %s" % (
+                tstr(inner), el["def"].split("::")[-1], later or "none", tstr(inner), nodrop), at=f.at or b["at"], cfg=cfg, frozen=False)
+    ctx.ob(rule, "sweep (%s)" % cfg, PROVED, "in-place re-typings of a boxed array to drop-suppressed elements: %d" % n, cfg=cfg)
+    return n
+
+
 def check(ctx):
     ctx.explanation = EXPLANATION
     ctx.trusted = ["rustc drop elaboration (live locals are dropped on unwind edges; cleanup blocks and drop flags are explicit in MIR)",
@@ -322,6 +356,8 @@ def check(ctx):
         n = check_closures(ctx, cfg)
         ctx.floor("C04.P", "element-moving closures (%s)" % cfg, n, 1)
         w = check_raw_writes(ctx, cfg)
+        if not cfg.startswith("F0"):
+            check_suppressed_elements(ctx, cfg)
         ctx.floor("C04.W", "raw element write sites outside closures (%s)" % cfg, w, 1)
         fw = check_finish_window(ctx, cfg)
         ctx.floor("C04.F", "finish-to-assume_init windows (%s)" % cfg, fw, 1)
